@@ -11,7 +11,11 @@ Implementation driven (real code from $VERIF_REPO/src):
   layout (kind rt_layout); kind rt_hist runs a schedule of calls (stacked read,
   combine_segments=True read, .pixel_array, get_stored_frame by number / index,
   get_stored_frames) on each of the three objects, so that every entry point
-  is observed with a cold and with a warm decoded-array cache.
+  is observed with a cold and with a warm decoded-array cache.  Tiled (slide microscopy) multi-frame sources
+  (synth.sm_tiled, TILED_FULL and TILED_SPARSE, the latter also with its frames in any order): the mask handed
+  over as ONE total pixel matrix (tile_pixel_array=True; spatial.get_tile_array cuts the frames) whose size is
+  or is not a whole number of tiles, read back by source frame (kind rt_tiled), and frame by frame
+  (kind rt_tiled_frames).
 Model: coq/theories/C01_Model.v; theorems: C01_Props.v.
 """
 import io
@@ -32,7 +36,8 @@ ORACLE_PREMISES = [
     'W1: pydicom write followed by read preserves PixelData bytes and the functional-group element values',
     'K(ts): for RLE Lossless and JPEG-LS Lossless, decode(encode(frame)) = frame on the frames admitted (exercised, not proved)',
     'Q1: the SQLite inner join of _iterate_indices_for_stack returns exactly the rows with equal keys (modelled as a list look-up)',
-    'G1: the plane sort permutation is supplied by geometry (C03/C11); the model takes it as an input, any permutation',
+    'G1: the plane sort permutation is supplied by geometry (C03/C11); the model takes it as an input, any permutation '
+    '(frames of a tiled source handed over frame by frame: ascending (row, column) position in the total pixel matrix)',
     'F1: float32/float64 products x*max_fractional_value are exact on the dyadic inputs drawn (den | 1024), '
     'np.around is round-half-even',
     'P1: futures are gathered in submission order (frame list = map encode frames) for workers = n / executor',
@@ -47,7 +52,10 @@ MODELLED = ('Segmentation.__init__ pixel path (_check_segment_numbers, bit depth
             'get_stored_frame / get_stored_frames / _get_pixels_by_frame) and the combine_segments=True branch of '
             '_get_pixels_by_seg_frame (binary check, overlap check, label assembly); seg/utils.py iter_segments; the '
             'worker pool of the constructor (tasks submitted in frame order, completed in any order, gathered by '
-            'future identity). Not modelled: '
+            'future identity); the tile_pixel_array=True entry point: spatial.py tile grid '
+            '(compute_tile_positions_per_frame offsets, row-major), get_tile_array (clipped slice + np.pad after), '
+            'the shape[0]==1 / total-pixel-matrix-shape / TILED_FULL+omit guards, arange plane order, then the same '
+            'frame loop and read path (construct_tiled). Not modelled: '
             'geometry (plane sorting, taken as input), dataset attribute copying, codecs, file I/O, the memory '
             'layout of the input numpy array (the model sees values only; layouts are exercised, kind rt_layout).')
 STRATA = ['rt', 'rt_mf', 'rt_nofor', 'rt_encaps', 'rescale', 'malformed', 'odd', 'pack', 'frame_at', 'rhe',
@@ -68,12 +76,25 @@ RULE = ('rt*: rows x cols with every residue of rows*cols mod 8 incl. < 8 pixels
         'specification of THAT request list (expected_req / spec_combined) on all four object / cache states; '
         'observe: iter_segments of the read file and pydicom\'s own pixel_array of the written file, model-compared; '
         'sched: encapsulated syntax with an Executor that completes the encode tasks in a rotated / reversed order; '
+        'rt_tiled: a tiled multi-frame source (TILED_FULL / TILED_SPARSE) and the mask as ONE total pixel matrix '
+        '(tile_pixel_array=True), 1..3 x 1..3 tiles of 13 tile sizes (square, oblong both ways, every residue of '
+        'the frame size mod 8), EVERY residue of matrix rows mod tile rows and matrix columns mod tile columns '
+        '(80 % of the matrices are not a whole number of tiles in at least one direction), all types / layouts / '
+        'dtypes / omit / native+RLE+JPEG-LS / memory layouts, request lists of source frame numbers (all, shuffled, '
+        'sub-lists with repetitions), three objects; modes: tpm (same tile size as the source: read by source '
+        'frame), tpm_full (TILED_FULL) and tpm_size (another tile size): by-frame indexing refused as documented, '
+        'stored frames + get_total_pixel_matrix judged; rt_tiled_frames: the same sources, mask handed over frame '
+        'by frame, TILED_SPARSE sources with shuffled frame order; tiled_bad: every guard of the entry point; '
         'valid kinds: the model also evaluates its `valid` predicate and its specification (must both be true); malformed: every constructor and query guard violated once; pack/frame_at: pydicom packing, '
         'get_raw_frame/decode_frame/read_frame_raw on hand-made bit-packed images; '
         'non-trivial = at least one non-zero pixel read back (or a refusal); distinct by case hash')
 NOT_EXECUTED = ['JPEG 2000 transfer syntaxes (no openjpeg codec installed)',
                 'JPEG-LS on frames < 64 pixels or on noisy frames (the pyjpegls plugin fails with "destination buffer too small"; JPEG-LS masks are kept sparse)',
-                'tiled (slide microscopy) sources: covered by C04']
+                'tile_pixel_array=True with a TILED_SPARSE source whose frames are NOT listed in row-major tile order, '
+                'with several optical paths / focal planes, or with caller-supplied geometry (plane_positions, '
+                'pixel_measures, plane_orientation): see claims note (the first is a reported defect)',
+                'get_total_pixel_matrix / get_tiles read paths of tiled segmentations: observed oracle-only here, '
+                'modelled by C04']
 EXHAUSTIVE = {'quick': False, 'thorough': False}
 
 TS = {'implicit': '1.2.840.10008.1.2', 'explicit': '1.2.840.10008.1.2.1',
